@@ -539,10 +539,63 @@ class C04(Check):
             return res
         res["evals"] += 1
         if not ind0:
-            fail("C04.clean-indicator-false", kind, f"{kind}: library-built PDU {case['wire']} parses back with its indicator False", dict(sub0, ops=[[]]), {"kind": kind})
+            fail("C04.clean-indicator-false", case.get("clean_site", kind), f"{kind}: library-built PDU {case['wire']} parses back with its indicator False",
+                 dict(sub0, ops=[[]], **({"clean_site": case["clean_site"]} if case.get("clean_site") else {})), {"kind": kind})
             res["digest"] = log.digest()
             return res
         res["cov"].add(f"{kind}|clean|-|true")
+        if "ops" not in case and poly is not None and case.get("pseed", 0) % 4 == 0:
+            # boundary-targeted CLEAN words, computed with the reference arithmetic: message bits are changed so that the check field of the (still valid)
+            # word comes out all-ones / all-ones-but-one / 1 / top bit only -- values a range test or a sentinel test in a checker trips over.  The word
+            # counts only if the library itself serialises exactly these bits for the PDU it parses from them (then it is "a PDU the library serialised")
+            r4 = random.Random(case.get("pseed", 0) ^ 0xADC)
+            cpos = order[-width:]
+            msgpos = order[:-width]
+            for T in ((1 << width) - 1, (1 << width) - 2, 1, 1 << (width - 1)):
+                y = [cpos[i] for i in range(width) if int(wire[cpos[i]]) != ((T >> (width - 1 - i)) & 1)]
+                if not y:
+                    continue
+
+                def synd(positions):
+                    e = [0] * len(order)
+                    for pp in positions:
+                        e[codepos[pp]] = 1
+                    return ref_rem(e, poly, width)
+
+                cand = r4.sample(msgpos, min(len(msgpos), 40))
+                basis = {}  # leading bit -> (syndrome, set of positions)
+                for pp in cand:
+                    sv, ps = synd([pp]), {pp}
+                    while sv:
+                        hb = sv.bit_length()
+                        if hb not in basis:
+                            basis[hb] = (sv, ps)
+                            break
+                        sv, ps = sv ^ basis[hb][0], ps ^ basis[hb][1]
+                tv, xs, okk = synd(y), set(), True
+                while tv:
+                    hb = tv.bit_length()
+                    if hb not in basis:
+                        okk = False
+                        break
+                    tv, xs = tv ^ basis[hb][0], xs ^ basis[hb][1]
+                if not okk:
+                    continue
+                w2 = wire.copy()
+                for pp in list(xs) + y:
+                    w2.invert(pp)
+                try:
+                    q2, ind2 = parse(kind, w2.copy())
+                    if reserialise(kind, q2).to01() != w2.to01():
+                        continue  # (normalised fields: the library would not serialise this word)
+                except Exception:
+                    continue
+                res["evals"] += 1
+                res.fault("clean_word_with_boundary_check_value")
+                res["cov"].add(f"{kind}|clean|check={T:x}|{'true' if ind2 else 'false'}")
+                if not ind2:
+                    fail("C04.clean-indicator-false", f"{kind}:check-value-{T:x}", f"{kind}: the PDU {w2.to01()} (as the library serialises it; check field {T:#x}) parses back with its indicator False",
+                         {"task": "pdu", "kind": kind, "wire": w2.to01(), "ops": [[]], "clean_site": f"{kind}:check-value-{T:x}"}, {"kind": kind})
         if kind in HRNPK and ("ops" not in case or case.get("hist")) or case.get("pclass") == "modify":
             # HRNP documents that its checksum is computed from the data assembled at serialisation time: a parsed packet whose fields were
             # assigned afterwards (what an application forwarding packets does) must serialise with a checksum that verifies
